@@ -229,6 +229,25 @@ def step (s : St) (toks : List String) : St × String :=
           | .dv dv => if sw then sysStep s sys (.report dv.b dv.a) else sysStep s sys (.report dv.a dv.b)
           | .lca _ => (s, "bad-op")
         | _, _ => (s, "bad-op")
+      | "recv" =>
+        -- a peer message: decoding + ValidateBasic of every item first, then AddEvidence one by one
+        match (kv rest "l").bind (lookupAll s) with
+        | some ds =>
+          if sys.dead then (s, "dead " ++ view s.ctx sys.pool)
+          else if !(ds.all (·.vb)) then (s, "recv stop=1 " ++ view s.ctx sys.pool)
+          else
+            let c := s.ctx
+            let (sys', stop) := receive c sys (ds.map (·.ev))
+            ({ s with sys := some sys' }, s!"recv stop={if stop then 1 else 0} " ++ view c sys'.pool)
+        | none => (s, "bad-op")
+      | "prep" =>
+        match (kv rest "e").bind (lookup s), kv rest "ph" with
+        | some d, some ph =>
+          if ph = "-" then (s, "prep send=0")
+          else match ph.toInt? with
+            | some h => (s, s!"prep send={if prepare sys.pool.state d.ev h then 1 else 0}")
+            | none => (s, "bad-op")
+        | _, _ => (s, "bad-op")
       | "restart" => if rest.isEmpty then sysStep s sys .restart else (s, "bad-op")
       | "pe" =>
         match (kv rest "max").bind String.toInt? with
